@@ -614,6 +614,13 @@ SKELETONS = [
         ("if", r"\bif\b"), ("register", r"register_sigaction\s*\("),
         # the action owns what it uses (a strong reference): nothing is upgraded - or let go of - inside a delivery
         ("weak", r"\b(?:downgrade|upgrade)\s*\(")]),
+    # dropping the shared state of an instance removes every registration it recorded, unconditionally
+    ("src/iterator/backend.rs", "drop@registered_signal_ids", [
+        ("lock", r"\.registered_signal_ids\s*\.lock\s*\(\s*\)"),
+        ("tolerant", r"unwrap_or_else\s*\(\s*std::sync::PoisonError::into_inner\s*\)"),
+        ("all.ids", r"for\s+id\s+in\s+lock\s*\.iter\s*\(\s*\)\s*\.filter_map\s*\(\s*\|s\|\s*\*s\s*\)"),
+        ("unregister", r"low_level::unregister\s*\(\s*id\s*\)"),
+        ("conditional", r"\bif\b|\breturn\b|panicking")]),
     # the origin exfiltrator hands out the extraction of the queued record, nothing more
     ("src/iterator/exfiltrator/origin.rs", "load", [
         ("raw.load", r"self\s*\.0\s*\.load\s*\(\s*slot\s*,\s*signal\s*\)"),
